@@ -117,6 +117,8 @@ def blit_txt(l):
         return SGN_TXT[s] + '&' + a[1]
     if t == 'tel':
         return SGN_TXT[s] + '&tel { %s }' % fml_txt(a[1])
+    if t == 'tels':      # several elements: their conjunction
+        return SGN_TXT[s] + '&tel { %s }' % ' ; '.join(fml_txt(x) for x in a[1])
     if t == 'del':
         return SGN_TXT[s] + '&del { %s }' % dfml_txt(a[1])
     raise ValueError(l)
@@ -149,10 +151,13 @@ def rule_txt(r):
     return h + '.' if h else ':- .'
 
 
-def prog_txt(rules):
-    out, part = [], None
+def prog_txt(rules, implicit_base=False):
+    """implicit_base: the text starts in the initial part without a #program line (as every input file does)"""
+    out, part = [], ('base-or-initial' if implicit_base else None)
     for r in rules:
-        if r['part'] != part:
+        if part == 'base-or-initial' and r['part'] in ('base', 'initial'):
+            pass
+        elif r['part'] != part:
             part = r['part']
             out.append('#program %s.' % part)
         out.append(rule_txt(r))
@@ -283,6 +288,11 @@ def blit_tok(l, A):
         return 't %s %s' % (s, KW_TOK[a[1]])
     if t == 'tel':
         return 't %s %s' % (s, fml_tok(a[1], A))
+    if t == 'tels':
+        x = 'top'
+        for g in reversed(a[1]):
+            x = 'and %s %s' % (fml_tok(g, A), x)
+        return 't %s %s' % (s, x)
     if t == 'del':
         return 'd %s %s' % (s, dfml_tok(a[1], A))
     raise ValueError(l)
@@ -358,6 +368,9 @@ def atoms_of(rules):
                 A.id(a[1])
             elif a[0] in ('tel', 'del'):
                 fa(a[1])
+            elif a[0] == 'tels':
+                for g in a[1]:
+                    fa(g)
     return A
 
 
